@@ -108,6 +108,10 @@ func (dr *DecodingReader) Read(p []byte) (int, error) {
 		v, err := dr.input.Read(p[n:])
 		n += v
 		if err != nil {
+			if err == io.EOF && n == len(p) {
+				// the reader delivered the final data together with the end-of-stream
+				return n, nil
+			}
 			return n, err
 		}
 	}
